@@ -146,6 +146,10 @@ static Plan gen_c04(uint64_t seed, const std::string &tier) {
     if (r.chance(1, 4)) { static const long lm[] = {255, 256, 1000, 65536, 1048575}; logmax = lm[r.below(5)]; s.has_logmax = true; s.logmax = std::to_string(logmax); }
     if (r.chance(1, 4)) { static const long dm[] = {255, 300, 4096, 131072, 1048575}; dsmax = dm[r.below(5)]; s.has_dsmax = true; s.dsmax = std::to_string(dsmax); }
     p.ops.push_back(op_setconfig(s.render(r)));
+    if (r.chance(1, 3)) {   // the logged exec is not the first of the process: an earlier one failed (PATH walk, vfork launcher)
+        int nprev = (int)r.range(1, 2);
+        for (int i = 0; i < nprev; i++) { ExecOp pe = gen_exec(r, "P" + std::to_string(i) + marker, (int)r.below(2)); gen_outcome(r, pe, false); p.ops.push_back(op_exec(pe)); }
+    }
     ExecOp e = gen_exec(r, marker, (int)r.below(3));
     if (mc == 2 && !e.argv_null) {   // message of a chosen size, up to the configured maximum
         long cap = logmax < dsmax ? logmax : dsmax; long target = r.chance(1, 3) ? cap : r.chance(1, 2) ? cap - 1 : (long)r.range(1, cap);
